@@ -248,8 +248,19 @@ def top_level_colon(rest):
     depth = 0
     lambdas = 0
     first = True
-    for m in TOKEN_RE.finditer(rest):
+    pos = 0
+    while pos < len(rest):
+        m = TOKEN_RE.match(rest, pos)
+        if not m or m.end() == pos:
+            pos += 1
+            continue
         t = m.group(0)
+        pos = m.end()
+        if t == '#':
+            # a comment runs to the end of the physical line (its text is not tokens: a quote in it opens no string)
+            e = re.search(r'[\r\n]', rest[pos:])
+            pos = pos + e.start() if e else len(rest)
+            continue
         if t in ('(', '[', '{'):
             depth += 1
         elif t in (')', ']', '}'):
